@@ -41,6 +41,8 @@ func scenarios(tier string) []svc.Scenario {
 		// an import job that ends without an index (unreadable first file) while more files are queued behind it,
 		// and a capture without packets
 		{Name: "bad-capture", Program: []string{"import:P1", "import:BAD+P2", "view.open:v1", "import:EMPTY+P3"}},
+		// a tag is waiting while the last import job of a chain produces nothing (the unreadable file is last)
+		{Name: "bad-capture-last", Program: []string{"addtag:tag/d=cdata:foo", "import:P1+BAD", "import:P2+BAD"}},
 		// a converter is attached while imports, tagging and a merge are in flight
 		{Name: "converter-attached-late", Converter: true, Program: []string{"import:P1", "addtag:tag/p=cport:1", "import:P2", "converters:tag/p=conv"}},
 		// a tag that refers to another tag from a sub-query: evaluated for all streams or none
